@@ -97,6 +97,10 @@ use ark_std::{
 mod data_structures;
 mod space;
 mod time;
+
+/// Verification hooks (only with `--cfg arkworks_rs_poly_commit_verif`).
+#[cfg(arkworks_rs_poly_commit_verif)]
+pub mod verif_hooks;
 pub use data_structures::*;
 pub use space::CommitterKeyStream;
 pub use time::CommitterKey;
